@@ -39,7 +39,7 @@
    [skipn i text], and slicing / indexing outside the bounds is [Crash] (Go: slice bounds / index
    out of range).  Set membership (CharSet.CharIn) is the oracle [set_in : set id -> rune -> bool]
    as in Spec.env; unicode.ToLower is the oracle [lower].  A nil *CharSet is [None].
-   Every finder answers [Ok (found, Runtextpos it left)]; loops take fuel (text length + 1 turns
+   Every finder answers [Ok (found, Runtextpos it left)]; loops take fuel (text length + 2 turns
    always suffice: Proofs/FinderProofs.v).  No proofs in this file. *)
 From Verif Require Import Base.Prelude Model.Scan.
 
@@ -260,7 +260,8 @@ Fixpoint fd_leading_strings_fast (fuel : nat) (prefixes : list (list Z)) (first_
           else fd_leading_strings_fast f prefixes first_runes latest (start + 1)   (* 1612 *)
   end.
 
-Definition fd_fuel : nat := S (length text).
+(* the loops below advance by at least one position per turn and stop beyond the text: len+2 turns suffice *)
+Definition fd_fuel : nat := S (S (length text)).
 
 Definition fd_find_leading_strings (p : Z) (prefixes : list (list Z)) (first_runes : list Z)
                                    (ignore_case : bool) : res (bool * Z) :=
